@@ -168,8 +168,10 @@ def run(ctx: Ctx):
         cl = [classify_monomial(typer, m_) for m_ in ms]
         rew = [c for c in cl if c["R"] and c["T"]]
         fut = [c for c in cl if c["T"] and not c["R"]]
-        ctx.check(len(rew) == 1 and rew[0]["disc"] == 0, "LOOK-1", f, qd, "look-ahead reward term T*R undiscounted", str(rew), "reward term of the look-ahead is missing or discounted")
-        ctx.check(len(fut) == 1 and fut[0]["disc"] == 1 and fut[0]["other"] >= 1, "LOOK-1", f, qd, "look-ahead future term T*gamma*v discounted once", str(fut), "future term of the look-ahead is missing or not discounted exactly once")
+        ctx.check(len(rew) == 1 and rew[0]["disc"] == 0 and rew[0]["other"] == 0, "LOOK-1", f, qd, "look-ahead reward term is exactly T*R (undiscounted, unscaled)", str(rew),
+                  "reward term of the look-ahead is missing, discounted or carries another factor (e.g. the entropy weight)")
+        ctx.check(len(fut) == 1 and fut[0]["disc"] == 1 and fut[0]["other"] == 1, "LOOK-1", f, qd, "look-ahead future term is exactly T*gamma*v", str(fut),
+                  "future term of the look-ahead is missing, not discounted exactly once, or carries another factor")
         ok = ast.unparse(qd.value).replace(" ", "").endswith(".sum(dim=-1)")
         ctx.check(ok, "LOOK-1", f, qd, "look-ahead sums the successor axis", "", "look-ahead does not sum over the successor axis")
         vname = env.get("v")
